@@ -62,7 +62,8 @@ def _read_csv_from_file(file_obj: TextIO, *, delimiter: str, has_header: bool):
         rows = all_rows[1:]
     else:
         # Generate default column names: col_0, col_1, etc.
-        header = [f"col_{i}" for i in range(len(all_rows[0]))]
+        # (no header fixes the width, so the longest record does: shorter ones are padded below)
+        header = [f"col_{i}" for i in range(max(len(row) for row in all_rows))]
         rows = all_rows
     
     if not rows:
